@@ -11,7 +11,9 @@ from rnaverif.runner import D, HarnessError, ShardResult, check_case, run_hypoth
 PROP_ID = "C06"
 LEVEL = "exploration"
 RULE = (
-    "Corpus structures (quick: 7 small files; thorough: all up to ~600 residues) x Hypothesis-drawn pair lists over "
+    "Corpus structures (quick: 8 small files; thorough: all up to ~600 residues), optionally cut into differently named "
+    "chains with drawn number offsets and dropped residues (numbering gaps, chains starting far above the previous "
+    "chain's last number, chains not in sorted order), x Hypothesis-drawn pair lists over "
     "their nucleotide residues: entries (r1, r2, LW, Saenger) with r1 != r2 and Saenger either absent or the class the "
     "28-class table assigns; drawn with exact duplicates, reversed duplicates (r2, r1, LW.reverse), conflicts (a "
     "residue in 2-5 canonical pairs), multiplets of degree 2-5 inside one LW class, dangling entries naming residues "
@@ -284,8 +286,43 @@ def check_mapping(s3, pairs2d, find_gaps, via_adapter, info):
     return out
 
 
+def relabelled(s3, rel):
+    """chains cut into pieces with their own names and number offsets, residues dropped (numbering gaps)"""
+    from rnaverif import gen3d
+
+    n = len(s3.residues)
+    cuts = {c % n for c in rel.get("cuts", [])}
+    # original chain boundaries stay boundaries (a piece never merges two source chains)
+    cuts |= {ri for ri in range(1, n) if s3.residues[ri].chain != s3.residues[ri - 1].chain}
+    cuts = sorted(cuts - {0})
+    drops = {d % n for d in rel.get("drop", [])}
+    offsets = rel.get("offsets", [0])
+    names = rel.get("names", ["A", "B", "C", "D"])
+    bounds = [0] + cuts + [n]
+    piece_of = {}
+    for k in range(len(bounds) - 1):
+        for ri in range(bounds[k], bounds[k + 1]):
+            piece_of[ri] = k
+    first_number = {}
+    for ri, r in enumerate(s3.residues):
+        first_number.setdefault((piece_of[ri], r.chain), None)
+
+    def ident_fn(ri, chain, number):
+        k = piece_of[ri]
+        nm = names[k % len(names)] + ("" if k < len(names) else str(k))
+        # pieces that share a chain name are kept apart in numbering (no duplicate identities)
+        earlier = sum(1 for q in range(k) if names[q % len(names)] + ("" if q < len(names) else str(q)) == nm)
+        return nm, number + offsets[k % len(offsets)] + 3000 * earlier
+
+    # a piece must not contain two source chains with clashing numbers: keep only structures
+    # whose (new chain, new number, icode) stay unique - checked by the caller
+    return gen3d.rebuild(s3, keep=set(range(n)) - drops, ident_fn=ident_fn)
+
+
 def oracle(case):
     s3 = corpus.structure(case["file"])
+    if case.get("relabel"):
+        s3 = relabelled(s3, case["relabel"])
     idents = [(r.chain, r.number, r.icode) for r in s3.residues]
     info = case.setdefault("_info", {})
     if len(set(idents)) != len(idents):
@@ -343,6 +380,8 @@ def classify(case):
         labs.append("via-adapter")
     if case.get("own_annotation"):
         labs.append("own-annotation")
+    if case.get("relabel"):
+        labs.append("relabelled-chains-and-numbers")
     if info.get("skipped"):
         labs.append("skipped")
     nt = bool(info.get("conflict") or info.get("multiplet3") or info.get("strands", 0) >= 2)
@@ -374,13 +413,21 @@ def st_cases(files):
             entries.append({"r1": r1, "r2": draw(st.integers(0, 400)), "lw": draw(lw),
                             "dup": draw(st.sampled_from([None, None, None, "exact", "reverse"]))})
         order = draw(st.permutations(list(range(len(entries))))) if entries else []
-        return {"file": fn, "entries": [entries[k] for k in order], "find_gaps": draw(st.booleans()), "via_adapter": draw(st.booleans()),
+        case = {"file": fn, "entries": [entries[k] for k in order], "find_gaps": draw(st.booleans()), "via_adapter": draw(st.booleans()),
                 "saenger": draw(st.booleans())}
+        if draw(st.booleans()):
+            case["relabel"] = {
+                "cuts": draw(st.lists(st.integers(1, 400), max_size=3)),
+                "drop": draw(st.lists(st.integers(0, 400), max_size=4)),
+                "offsets": draw(st.lists(st.sampled_from([0, 0, 1, 50, 100, -30, 1000]), min_size=1, max_size=4)),
+                "names": draw(st.sampled_from([["A", "B", "C", "D"], ["B", "A", "D", "C"], ["X", "X2", "Y", "Z"], ["A", "A", "B", "B"]])),
+            }
+        return case
 
     return build()
 
 
-QUICK_FILES = ["1HMH_1_E.cif", "6INQ.cif", "1DFU_1_M-N.cif", "4WTI_1_T-P.cif", "1E7K_1_C.cif", "184D.cif", "1A1T_1_B.cif"]
+QUICK_FILES = ["1HMH_1_E.cif", "6INQ.cif", "1DFU_1_M-N.cif", "4WTI_1_T-P.cif", "1E7K_1_C.cif", "184D.cif", "1A1T_1_B.cif", "488d.pdb"]
 
 
 def plan(tier, seed):
